@@ -532,7 +532,7 @@ Lemma ap_sim c ops : forall (Q : list task) P nx, plain ops -> apI Q P ->
   snd (vrun c (@mkV AP Q nx) ops) = srun ap_pick P ops.
 Proof.
   induction ops as [|o r IH]; intros Q P nx Hpl HI; [reflexivity|].
-  inversion Hpl as [|? ? Ho Hr]; subst. destruct o as [es d ring rnds|es| | |]; try contradiction; cbn [vrun vstep srun].
+  inversion Hpl as [|? ? Ho Hr]; subst. destruct o as [es d ring rnds|es| | | |]; try contradiction; cbn [vrun vstep srun].
   - unfold vsched. cbn [v_mod v_next]. destruct ring as [|t0 rr].
     + cbn [map]. rewrite app_nil_r. specialize (IH Q P nx Hr HI).
       destruct (vrun c (@mkV AP Q nx) r). cbn [snd] in *. rewrite IH. reflexivity.
@@ -555,7 +555,7 @@ Lemma ip_sim c ops : forall (Q : list task) P nx, plain ops -> dist0 ops -> apI 
 Proof.
   induction ops as [|o r IH]; intros Q P nx Hpl Hd0 HI; [reflexivity|].
   inversion Hpl as [|? ? Ho Hr]; subst. inversion Hd0 as [|? ? Hd Hdr]; subst.
-  destruct o as [es d ring rnds|es| | |]; try contradiction; cbn [vrun vstep srun].
+  destruct o as [es d ring rnds|es| | | |]; try contradiction; cbn [vrun vstep srun].
   - subst d. unfold vsched. cbn [v_mod v_next]. destruct ring as [|t0 rr].
     + cbn [map]. rewrite app_nil_r. specialize (IH Q P nx Hr Hdr HI).
       destruct (vrun c (@mkV IP Q nx) r). cbn [snd] in *. rewrite IH. reflexivity.
@@ -577,7 +577,7 @@ Lemma spq_sim c ops : forall (q : list (Z * list task)) P nx, plain ops -> spI q
   snd (vrun c (@mkV SPQ q nx) ops) = srun spq_pick P ops.
 Proof.
   induction ops as [|o r IH]; intros q P nx Hpl HI; [reflexivity|].
-  inversion Hpl as [|? ? Ho Hr]; subst. destruct o as [es d ring rnds|es| | |]; try contradiction; cbn [vrun vstep srun].
+  inversion Hpl as [|? ? Ho Hr]; subst. destruct o as [es d ring rnds|es| | | |]; try contradiction; cbn [vrun vstep srun].
   - unfold vsched. cbn [v_mod v_next]. destruct ring as [|t0 rr].
     + cbn [map]. rewrite app_nil_r. specialize (IH q P nx Hr HI).
       destruct (vrun c (@mkV SPQ q nx) r). cbn [snd] in *. rewrite IH. reflexivity.
